@@ -647,8 +647,9 @@ def run(ctx):
     # ---- 1. reader-level correspondence under ASan/UBSan: F1 witness + seeded operation scripts --------------------
     import C04 as C4
     rcases = [("F1", C4.F1_WITNESS)] + C4.gen_reader_cases(ctx, consts)
-    rcases = [c for c in rcases if c[0] == "F1" or c[0].startswith("pairs")] + \
-             [c for c in rcases if c[0].startswith("rand")][:120] + [c for c in rcases if c[0].startswith("slide")][:6]
+    rcases = [c for c in rcases if c[0] == "F1"] + [c for c in rcases if c[0].startswith("pairs")][:6] + \
+             [c for c in rcases if c[0].startswith("suppname")][:20] + \
+             [c for c in rcases if c[0].startswith("rand")][:100] + [c for c in rcases if c[0].startswith("slide")][:4]
     rreqs = [c[1] for c in rcases]
     ans, status, err = run_watchdog(xh04, rreqs, SAN_ENV)
     ctx.count(len(ans))
@@ -814,6 +815,13 @@ def run(ctx):
         ctx.violation("obligation", {"what": "Coq obligation no longer checks and the exploration found no failing input",
                                      "failed": failed, "output": out[-3000:]}, no_input=True)
     ctx.coverage["rule"] = (
+        "250 HISTORIES (2-4 documents through one parser object: names of growing / shrinking lengths, DTD and schema reuse with "
+        "grammar caching, error documents in between, declared attributes accumulating over reparses; all scanners and APIs); a "
+        "malformed-SCHEMA stream (3 base schemas covering simpleContent restriction/extension incl. the E1-27 case, groups, "
+        "attribute groups, substitution groups, all-groups, identity constraints: every single-child drop + seeded drop / duplicate / "
+        "move / wrong value / dangling reference / illegal child mutations, loaded through IG and SG with full checking on and off); "
+        "358 deterministic capacity-threshold parses (as before plus 64..520 declared attributes PRESENT on tags -- the scanner's counter "
+        "pool -- via DTD and XML Schema, and a schema grammar first switched in at element depth 14..130); formerly: "
         "240 deterministic capacity-threshold parses (exponential DFA models via DTD and XML Schema, 63..200 leaves, occurrence "
         "expansions, declared attributes / attributes on a tag / namespace prefixes / entities / nesting / depth / IDs / identity "
         "constraint rows across their growth thresholds, validation on); "
